@@ -14,6 +14,8 @@ var lookalikes = []string{
 	"", " ", "-", "+", "--", "++", "a\r", "\t", "é", "\x00", "- ", "+ ",
 	// text that means something to a formatter
 	"100%", "%d", "%%", "%[1]d", "%s %s", "a%", "%!d(MISSING)", "%v%v%v", "%-5d|", `%q`,
+	// bytes that are not valid UTF-8 (Latin-1 text, a truncated sequence, lone continuation bytes)
+	"\xff", "\xfe", "caf\xe9", "a\xc3", "\x80\x80", "\xef\xbf", "\xed\xa0\x80",
 }
 
 type gen struct {
